@@ -1,5 +1,20 @@
 # Claim table read by tools/gen_manifest.py. Only implemented, armed and quiet checks go here.
-CLAIMS = {}
+CLAIMS = {
+    "C02": dict(
+        text="Structural necessary conditions for SIMD == native, decided for all paths and build "
+             "configurations (x86, x86+rayon, aarch64/NEON, wasm32/SIMD128): every CpuExtensions "
+             "dispatcher routes each variant to the kernel of the matching back-end module with the "
+             "arguments of the native arm, no SIMD kernel is shared by two operations or named like "
+             "another operation's native kernel; target-feature closure of each arm is implied by "
+             "the variant; precision tables (constify_imm8!) cover the normaliser's precision "
+             "interval without holes, arm k instantiates PRECISION=k, no producible arm is empty. "
+             "Bit equality of the computed pixels is NOT decided.",
+        note="Trusted: rustc type checker/MIR, firdrv, back-end module naming (avx2/sse4/neon/"
+             "wasm32/native). Numerical equality of kernels is out of reach of this technique.",
+        technique="static analysis: dispatch-table extraction from MIR SwitchInt + call-graph "
+                  "feature closure + interval analysis of the precision selector",
+    ),
+}
 NOT_APPLICABLE = {
     "C10": "partition of unity of quantised runtime weight vectors is an arithmetic identity over "
            "runtime values (sum of individually rounded f64->i16 conversions); no abstract domain "
